@@ -30,6 +30,20 @@ def _const(mod, name):
     return v
 
 
+def _lit_const(mod, e):
+    """literal value of an expression in which module-level literal constants may be named (OPEN_END for -1)"""
+    import copy
+
+    class Sub(ast.NodeTransformer):
+        def visit_Name(self, n):
+            try:
+                c = mod.const_value(n.id)
+            except Exception:
+                c = None
+            return copy.deepcopy(c) if c is not None and lit(c) is not None else n
+    return lit(Sub().visit(copy.deepcopy(e)))
+
+
 def run(db, chk, quad: bool = False) -> None:
     quad = quad or chk.tier == "thorough"   # thorough tier: also all endpoint quadruples of four events
     new, old = db.mod(NEW), db.mod(OLD)
@@ -142,6 +156,17 @@ def _loop_discipline(chk, mod, f, open_test_ok):
     iff = top[0]
     itest, ob, cb = H.norm_if(iff)
     chk.ob("C03.R3-builder", f"{mod.name}: the branch test distinguishes OPEN endpoints with the encoding's constant", open_test_ok(itest, lp), where, found=ast.unparse(iff.test), accepted="kind == OPEN")
+    # A-normal form of the open branch: f(<a if c else b>, x)  ==  p = a if c else b; f(p, x)   (the first argument is evaluated first)
+    ob2 = []
+    for st_ in ob:
+        if isinstance(st_, ast.Expr) and isinstance(st_.value, ast.Call) and st_.value.args and isinstance(st_.value.args[0], ast.IfExp) and not any(isinstance(x, ast.NamedExpr) for x in ast.walk(st_)):
+            tmp = ast.Name(id="__hoisted_arg0", ctx=ast.Load())
+            asg = ast.copy_location(ast.Assign(targets=[ast.Name(id="__hoisted_arg0", ctx=ast.Store())], value=st_.value.args[0]), st_)
+            call = ast.copy_location(ast.Call(func=st_.value.func, args=[tmp] + list(st_.value.args[1:]), keywords=st_.value.keywords), st_.value)
+            ob2 += [asg, ast.copy_location(ast.Expr(value=call), st_)]
+        else:
+            ob2.append(st_)
+    ob = ob2
     is_stack_call = lambda c, names: isinstance(c, ast.Call) and isinstance(c.func, ast.Attribute) and c.func.attr in names and H.name_id(c.func.value) == stack_name
     pushes = [c for s in ob for c in ast.walk(s) if is_stack_call(c, ("append",))]
     edges = [c for s in ob for c in ast.walk(s) if isinstance(c, ast.Call) and isinstance(c.func, ast.Attribute) and c.func.attr == "_add_edge"]
@@ -239,8 +264,8 @@ def _builders(db, chk, new, old, OPEN_N, CLOSE_N, START_O, END_O):
         ok = kw.get("id_vars") == ["index", "dur"] and kw.get("value_vars") == ["ts", "end"] and kw.get("var_name") == "kind" and kw.get("value_name") == "time"
         chk.ob("C03.R4-encoding", f"{NEW}: melt produces columns (index, dur, kind, time) = positions (_I_INDEX, _I_DUR, _I_KIND, _I_TIME)", ok, new.loc(melt[0]), found=kw,
                accepted={"id_vars": ["index", "dur"], "value_vars": ["ts", "end"], "var_name": "kind", "value_name": "time"})
-        mp = lit(rep[0].args[0]) if rep[0].args else None
-        chk.ob("C03.R4-encoding", f"{NEW}: start endpoints are marked OPEN_END and end endpoints CLOSE_END", mp == {"ts": OPEN_N, "end": CLOSE_N}, new.loc(rep[0]), found=mp, accepted={"ts": OPEN_N, "end": CLOSE_N})
+        mp = _lit_const(new, rep[0].args[0]) if rep[0].args else None
+        chk.ob("C03.R4-encoding", f"{NEW}: start endpoints are marked OPEN_END and end endpoints CLOSE_END", (mp == {"ts": OPEN_N, "end": CLOSE_N}) if isinstance(mp, dict) else None, new.loc(rep[0]), found=mp, accepted={"ts": OPEN_N, "end": CLOSE_N})
     else:
         chk.ob("C03.R4-encoding", f"{NEW}: endpoint array built by melt + replace", None, new.loc(f), found={"melt": len(melt), "replace": len(rep)})
     ends = [s for s in ast.walk(f) if isinstance(s, ast.Assign) and isinstance(s.targets[0], ast.Subscript) and lit(s.targets[0].slice) == "end"]
@@ -332,8 +357,9 @@ def _published_parent(db, chk, old):
     from ..core import terms as T
     from ..core.values import Frame, to_term
     rule = "C03.R6-published-parent"
-    f = old.func("CallGraph._construct_call_graph")
-    where = old.loc(f)
+    f0 = old.func("CallGraph._construct_call_graph")
+    where = old.loc(f0)
+    f = H.inline_helpers(old, f0, qual="CallGraph._construct_call_graph")
     ups = [c for c in ast.walk(f) if isinstance(c, ast.Call) and isinstance(c.func, ast.Attribute) and c.func.attr == "update" and c.args]
     link_updates = []
     for c in ups:
@@ -369,8 +395,31 @@ def _published_parent(db, chk, old):
            found={"predicate": ast.unparse(pred), "table": {str(k): v for k, v in tt.items()}, "also reads": other}, accepted="df['stream'].ne(-1)",
            why="links are mutual: a host launch call has a positive index_correlation too, and its published parent would become its own kernel instead of the enclosing operator")
     # the stack parents are published first and cover every node of every thread of the rank
-    first = [u for u in ups if u.lineno < c.lineno and any(isinstance(x, ast.DictComp) for x in ast.walk(u))]
-    okf = len(first) == 1 and any(H.match("{$k: $n.parent for $k, $n in $$it if $k >= 0}", x) is not None for x in ast.walk(first[0]) if isinstance(x, ast.DictComp))
+    # (written as parents.update({...}) per stack, or as one comprehension over all stacks that initialises the map)
+    recv = H.name_id(c.func.value)
+    pos = {}
+
+    def dfs(n):
+        pos[id(n)] = len(pos)
+        for ch in ast.iter_child_nodes(n):
+            dfs(ch)
+    dfs(f)
+    first = [u.args[0] for u in ups if pos[id(u)] < pos[id(c)] and H.name_id(u.func.value) == recv and isinstance(u.args[0], ast.DictComp)]
+    first += [a.value for a in ast.walk(f) if isinstance(a, (ast.Assign, ast.AnnAssign)) and isinstance(a.value, ast.DictComp) and pos[id(a)] < pos[id(c)]
+              and any(H.name_id(t_) == recv for t_ in (a.targets if isinstance(a, ast.Assign) else [a.target]))]
+
+    def host_parents(dc):
+        g = dc.generators[-1]
+        if not (isinstance(dc.key, ast.Name) and isinstance(dc.value, ast.Attribute) and dc.value.attr == "parent" and isinstance(dc.value.value, ast.Name)):
+            return False
+        if not (isinstance(g.target, ast.Tuple) and [H.name_id(e) for e in g.target.elts] == [dc.key.id, dc.value.value.id]):
+            return False
+        if not (isinstance(g.iter, ast.Call) and isinstance(g.iter.func, ast.Attribute) and g.iter.func.attr == "items" and "get_nodes()" in ast.unparse(g.iter.func.value)):
+            return False
+        if any(og.ifs for og in dc.generators[:-1]):
+            return False
+        return len(g.ifs) == 1 and (H.match(f"{dc.key.id} >= 0", g.ifs[0]) is not None or H.match(f"0 <= {dc.key.id}", g.ifs[0]) is not None)
+    okf = len(first) == 1 and host_parents(first[0])
     chk.ob(rule, "host parents: every node id >= 0 of every stack of the rank maps to its stack parent, before the link overwrite", okf, where, found=[ast.unparse(u)[:140] for u in first],
            accepted="parents.update({node_id: node.parent for node_id, node in stack.get_nodes().items() if node_id >= 0})")
     chk.floor(rule, 2)
@@ -381,7 +430,7 @@ def _thread_identity(db, chk, new, old, rule="C03.R7-thread-identity", only_buil
     pid namespaces, a host tid equal to a device stream id)"""
     cgm = db.mod("hta.common.trace_call_graph")
     for mod, q in ((old, "CallGraph._construct_call_graph"), (cgm, "CallGraph._build_call_stacks"))[:1 if only_builder_of_critical_path else 2]:
-        f = mod.func(q)
+        f = H.inline_helpers(mod, mod.func(q), qual=q)
         gbs = [c for c in ast.walk(f) if isinstance(c, ast.Call) and isinstance(c.func, ast.Attribute) and c.func.attr == "groupby"]
         loops = [n for n in ast.walk(f) if isinstance(n, ast.For) and any(g is n.iter or any(g is x for x in ast.walk(n.iter)) for g in gbs)]
         keys = None
